@@ -5,6 +5,8 @@
      C <lo> <hi>                       run-length encoded categories of code points lo..hi-1
      T <cps>                           tokenize
      P <tol> <skip,skip|-> <cps>       parse (tol: 0 strict / 1 tolerant)
+     X <model> <int> <int> ...         generic: run_<model> : list Z -> list Z (the case is
+                                       decoded and the result encoded inside Coq)
    <cps> = '.'-joined decimal code points, '-' for the empty string.      *)
 open Model
 
@@ -19,6 +21,9 @@ let rec int_of_pos = function
   | XH -> 1
   | XO p -> 2 * int_of_pos p
   | XI p -> 2 * int_of_pos p + 1
+
+let z_of_int (i : int) : z =
+  if i = 0 then Z0 else if i > 0 then Zpos (pos_of_int i) else Zneg (pos_of_int (- i))
 
 let int_of_n = function N0 -> 0 | Npos p -> int_of_pos p
 let int_of_z = function Z0 -> 0 | Zpos p -> int_of_pos p | Zneg p -> - (int_of_pos p)
@@ -133,6 +138,13 @@ let () =
           | ["P"; tol; sk; s] ->
             let skips = if sk = "-" then [] else List.map str_of_cps (String.split_on_char ',' sk) in
             do_parse (int_of_string tol) skips (str_of_cps s)
+          | "X" :: name :: ints ->
+            let inp = List.map (fun x -> z_of_int (int_of_string x)) (List.filter (fun x -> x <> "") ints) in
+            let f = (match name with
+              | "clo" -> run_clo | "buf" -> run_buf | "args" -> run_args
+              | "view" -> run_view | "edit" -> run_edit
+              | _ -> failwith "unknown model") in
+            String.concat " " (List.map (fun z -> string_of_int (int_of_z z)) (f inp))
           | _ -> "BAD-REQUEST"
         with Stack_overflow -> "ERR StackOverflow"
       in
